@@ -20,6 +20,8 @@ type c04conn struct {
 	from string // "" = stream start
 	cond string
 	to   string // "" = stream end
+	// flow references (C05 only): "name@at" replaces the stream/processor end point
+	fromFlow, toFlow string
 }
 
 type c04flow struct {
@@ -48,14 +50,22 @@ func (f *c04flow) def(url string) flowDef {
 		var out []connDef
 		for _, c := range cs {
 			cd := connDef{Cond: c.cond}
-			if c.from == "" {
+			switch {
+			case c.fromFlow != "":
+				p := strings.SplitN(c.fromFlow, "@", 2)
+				cd.FromFlow, cd.FromFlowAt, cd.Cond = p[0], p[1], ""
+			case c.from == "":
 				cd.FromStream = "start"
-			} else {
+			default:
 				cd.FromProc = c.from
 			}
-			if c.to == "" {
+			switch {
+			case c.toFlow != "":
+				p := strings.SplitN(c.toFlow, "@", 2)
+				cd.ToFlow, cd.ToFlowAt = p[0], p[1]
+			case c.to == "":
 				cd.ToStream = "end"
-			} else {
+			default:
 				cd.ToProc = c.to
 			}
 			out = append(out, cd)
@@ -103,7 +113,7 @@ func genC04Flow(tp *kernel.Tape, name string) *c04flow {
 	}
 	conds := []string{"hit", "miss"}
 	// request direction: start -> p1; every later node gets at least one incoming edge from an earlier filter
-	f.req = append(f.req, c04conn{"", "", "p1"})
+	f.req = append(f.req, c04conn{from: "", cond: "", to: "p1"})
 	incoming := map[string]bool{"p1": true}
 	targetsAfter := func(i int) []string {
 		var t []string
@@ -127,7 +137,7 @@ func genC04Flow(tp *kernel.Tape, name string) *c04flow {
 					continue
 				}
 				used[to] = true
-				f.req = append(f.req, c04conn{from, c, to})
+				f.req = append(f.req, c04conn{from: from, cond: c, to: to})
 				incoming[to] = true
 			}
 		}
@@ -137,7 +147,7 @@ func genC04Flow(tp *kernel.Tape, name string) *c04flow {
 			return
 		}
 		from := fmt.Sprintf("p%d", 1+tp.Choose(maxFrom))
-		f.req = append(f.req, c04conn{from, conds[tp.Choose(2)], node})
+		f.req = append(f.req, c04conn{from: from, cond: conds[tp.Choose(2)], to: node})
 		incoming[node] = true
 	}
 	for j := 2; j <= f.nReq; j++ {
@@ -154,12 +164,12 @@ func genC04Flow(tp *kernel.Tape, name string) *c04flow {
 	for i := 1; i <= f.nReq; i++ {
 		p := fmt.Sprintf("p%d", i)
 		if !hasOut[p] {
-			f.req = append(f.req, c04conn{p, conds[tp.Choose(2)], ""})
+			f.req = append(f.req, c04conn{from: p, cond: conds[tp.Choose(2)], to: ""})
 		}
 	}
 	// response direction: optional root chain r1.., every early-response node has exactly one response connection
 	if f.nResp > 0 && tp.Chance(3, 4) {
-		f.resp = append(f.resp, c04conn{"", "", "r1"})
+		f.resp = append(f.resp, c04conn{from: "", cond: "", to: "r1"})
 	}
 	rIncoming := map[string]bool{}
 	if len(f.resp) > 0 {
@@ -170,7 +180,7 @@ func genC04Flow(tp *kernel.Tape, name string) *c04flow {
 		if f.nResp > 0 && tp.Chance(1, 2) {
 			to = fmt.Sprintf("r%d", 1+tp.Choose(f.nResp))
 		}
-		f.resp = append(f.resp, c04conn{fmt.Sprintf("g%d", j), "", to})
+		f.resp = append(f.resp, c04conn{from: fmt.Sprintf("g%d", j), to: to})
 		if to != "" {
 			rIncoming[to] = true
 		}
@@ -191,7 +201,7 @@ func genC04Flow(tp *kernel.Tape, name string) *c04flow {
 					continue
 				}
 				used[to] = true
-				f.resp = append(f.resp, c04conn{from, c, to})
+				f.resp = append(f.resp, c04conn{from: from, cond: c, to: to})
 				if to != "" {
 					rIncoming[to] = true
 				}
@@ -206,12 +216,12 @@ func genC04Flow(tp *kernel.Tape, name string) *c04flow {
 	for i := 1; i <= f.nResp; i++ {
 		r := fmt.Sprintf("r%d", i)
 		if !rOut[r] {
-			f.resp = append(f.resp, c04conn{r, conds[tp.Choose(2)], ""})
+			f.resp = append(f.resp, c04conn{from: r, cond: conds[tp.Choose(2)], to: ""})
 		}
 	}
 	// a flow needs a response section: an empty one becomes a pass-through
 	if len(f.resp) == 0 {
-		f.resp = append(f.resp, c04conn{"", "", ""})
+		f.resp = append(f.resp, c04conn{from: "", cond: "", to: ""})
 	}
 	return f
 }
